@@ -56,6 +56,7 @@ structure OpSelectFacts where
   singleUsesOnly : Bool
   emptyNameRejected : Bool
   selectsByName : Bool
+  onlyIfNameMatches : Bool    -- a lone operation is used only when no name is given or the name is its own
 deriving DecidableEq, Repr
 
 inductive CacheStoreOp | loadOrStore | store | unrecognised
